@@ -49,3 +49,32 @@ CHECKS["C02"] = {
         "the model takes self-exclusion and required/optional from the property statement; ties are accepted within the top-ranked set",
     ],
 }
+
+CHECKS["C06"] = {
+    "level": "exploration",
+    "jobs": [J("typedirected", "c06", "TestTypeDirected", 4000, 100000, 12)],
+    "assumptions": [
+        "func:\"M,returns=..\" values are drawn from plain non-numeric strings (result comparison after the container's literal parsing is then plain string equality)",
+        "which of several equally admissible components a single-valued point receives is not asserted here (C08/C10)",
+    ],
+}
+CHECKS["C08"] = {
+    "level": "exploration",
+    "jobs": [J("narrowing", "c08", "TestNarrowing", 4000, 100000, 12)],
+    "assumptions": [
+        "several Primary components, or no Primary and several unnamed ones, form a tie: any member of that top rank is accepted",
+        "qualifier lists are generated as either the single empty qualifier or a list of non-empty names",
+    ],
+}
+
+CHECKS["C07"] = {
+    "level": "exploration",
+    "jobs": [
+        J("byname", "c07", "TestByName", 4000, 100000, 12),
+        J("duplicates", "c07", "TestDuplicateNames", 500, 5000, 1),
+    ],
+    "assumptions": [
+        "named points are generated on single-valued fields only (the property speaks about single-valued points)",
+        "a duplicate registration may be rejected by panic or error, or one of the two may be dropped; only both being live under one name is a violation",
+    ],
+}
